@@ -33,6 +33,13 @@ int EvalExpression::run(AsmContext *asm_context, Var &answer, bool is_paren)
     if (token_type == TOKEN_EOL || token_type == TOKEN_EOF)
     {
       tokens_push(asm_context, token, token_type);
+
+      if (is_paren == true)
+      {
+        print_error(asm_context, "Missing ')' in expression");
+        return -1;
+      }
+
       break;
     }
 
@@ -143,7 +150,7 @@ int EvalExpression::run(AsmContext *asm_context, Var &answer, bool is_paren)
         if (IS_TOKEN(token, '-'))
         {
           // Needed for: 6 + -5.
-          parse_unary_new(asm_context, var);
+          if (parse_unary_new(asm_context, var) != 0) { return -1; }
           var.negative();
           var_stack.push(var);
           count++;
@@ -152,7 +159,7 @@ int EvalExpression::run(AsmContext *asm_context, Var &answer, bool is_paren)
         if (IS_TOKEN(token, '~'))
         {
           // Needed for: ~0xfe.
-          parse_unary_new(asm_context, var);
+          if (parse_unary_new(asm_context, var) != 0) { return -1; }
           var.complement();
           var_stack.push(var);
           count++;
@@ -210,6 +217,13 @@ int EvalExpression::run(AsmContext *asm_context, Var &answer, bool is_paren)
   }
 
   if (var_stack.is_empty()) { return -1; }
+
+  // Every operator needs a value on its right: "1 +" is not an expression.
+  if (oper_stack.size() >= var_stack.size())
+  {
+    print_error(asm_context, "Expression ends with an operator");
+    return -1;
+  }
 
   while (var_stack.size() > 1 && oper_stack.is_empty() == false)
   {
